@@ -44,7 +44,7 @@ CHECKS = {
    note="Trusted: rec.rs log (one global sequence), the unique-name construction. Only the interleavings the OS scheduler and the jitter produce are covered; HTTP producers are exercised in C20.",
    tech="offline checker over recorded history (exactly-once, per-sender order, non-overlap) under stress + lock-acquisition jitter", ref="DESIGN.md §5 C13"),
  "C17": dict(cat="exploration",
-   text="Stress topologies (rings, invoking states, timers, host threads starting sessions / sending / shutting down) run under the Verif_Hooks lock observer: lock-order edges per lock class are recorded and an online wait-for graph reports a cycle among blocked threads, i.e. an actual deadlock, at the moment it forms; afterwards every session must still be cancellable.",
+   text="Stress topologies (rings, invoking states, timers, host threads starting sessions / sending / shutting down) run under the Verif_Hooks lock observer: lock-order edges per lock class are recorded and an online wait-for graph reports a cycle among blocked threads, i.e. an actual deadlock, at the moment it forms; afterwards every session must still be cancellable. The stress documents also address the invoke id of a child that is running, cancelled or was never started (the error path of the SCXML processor runs under its lock).",
    note="Trusted: verif_sync hook + lockmon.rs. Only observed wait-for cycles are violations; predicted but unconfirmed lock-order inversions are listed in the evidence. Liveness is restated as bounded progress.",
    tech="instrumented-mutex runtime monitor: lock-order graph + online wait-for cycle detection under stress and jitter", ref="DESIGN.md §5 C17"),
  "C11": dict(cat="exploration",
